@@ -9,7 +9,7 @@ class C05(Property):
     pid = "C05"
     quick_n = 3000
     thorough_n = 120000
-    partial = ["C05_exactly_once is proved for parsers without adjacent commands (see DESIGN 4/C05)"]
+    partial = []
 
     def generate(self, rng, tier, n):
         cases = []
